@@ -199,8 +199,9 @@ def gen_cases(tier, rng):
                 s = rng.randrange(10 ** 9)
                 for fn in ("uniform", "uniform_dataset"):
                     out.append({"fn": fn, "n": n, "m": m, "steps": 0, "complete": 1, "seed": s})
-    # beyond the grid: many rankings (257+), a few more elements
-    for m in (257, 300):
+    # beyond the grid: many rankings (257+; counts m for which m * (1/m) is not 1 in binary floating point), a few more
+    # elements
+    for m in (49, 98, 103, 107, 161, 257, 300):
         for n in (2, 3):
             for c in (0, 1):
                 for fn in ("generate_rankings", "markov_dataset"):
